@@ -135,13 +135,15 @@ Theorem weights_nlevels_ok c : gen_weights_nlevels c = height c.
 Proof. unfold gen_weights_nlevels. rewrite ?seq_length. reflexivity || lia. Qed.
 (* _transform_weights under the guard of __call__: None / "equal" become all-ones, "root" counts the root level only (IndexError for a tree of no
    levels), an explicit list is left alone, any other string is left alone too (the sum then raises: None) *)
-Theorem effective_weights_ok c w : w_as_list (gen_effective_weights c w) = weights_of (height c) w.
+Theorem effective_weights_ok c w : 0 < height c -> w_as_list (gen_effective_weights c w) = weights_of (height c) w.
 Proof.
-  unfold gen_effective_weights. rewrite weights_nlevels_ok. generalize (height c) as n. intros n.
+  unfold gen_effective_weights. rewrite weights_nlevels_ok. generalize (height c) as n. intros n Hn.
+  destruct n as [|m]; [lia|]. clear Hn.
   unfold gen_weights_guard, gen_transform_weights.
   destruct w as [| | | |l]; cbn [w_is_none w_is_str w_is_list w_eq_equal w_eq_root orb andb negb w_as_list weights_of];
     try reflexivity;
-    destruct n as [|m]; cbn [seq map repeat app w_setitem list_set w_as_list weights_of]; rewrite ?map_const_seq, ?repeat_app_one; reflexivity.
+    cbn [seq map repeat app w_setitem list_set w_as_list weights_of Nat.sub Nat.add];
+    rewrite ?Nat.sub_0_r, ?Nat.add_0_r, ?map_const_seq, ?repeat_app_one; cbn [app w_setitem list_set w_as_list]; reflexivity.
 Qed.
 (* the normalisation happens once: what it leaves is a list, and a list is never touched again *)
 Theorem effective_weights_idem c c' w ws : w_as_list (gen_effective_weights c w) = Some ws ->
@@ -150,12 +152,12 @@ Proof.
   intros _. unfold gen_effective_weights, gen_weights_guard.
   cbn [w_is_none w_is_str w_is_list w_eq_equal w_eq_root orb andb negb]. reflexivity.
 Qed.
-Theorem FitnessEvalLimitReached_spec_ok c fuel limit w ws s : levels_ok c (demes (ms s)) ->
+Theorem FitnessEvalLimitReached_spec_ok c fuel limit w ws s : levels_ok c (demes (ms s)) -> 0 < height c ->
   w_as_list (gen_effective_weights c w) = Some ws ->
   exists b, answers (gen_FitnessEvalLimitReached c fuel limit ws) s b /\
             gsc_eval (GEvalLimit limit (weights_or_nil (height c) w)) (height c) (ms s) = Some b.
 Proof.
-  intros L E. rewrite effective_weights_ok in E. unfold weights_or_nil. rewrite E. now apply FitnessEvalLimitReached_ok.
+  intros L H0 E. rewrite (effective_weights_ok c w H0) in E. unfold weights_or_nil. rewrite E. now apply FitnessEvalLimitReached_ok.
 Qed.
 (* "equal" (and None) is SingularProblemEvalLimitReached; "root" counts the root's evaluations only *)
 Lemma nth_repeat_lt (k i n : nat) : i < n -> nth i (repeat k n) 0 = k.
